@@ -1,6 +1,6 @@
 package main
 
-// Network stub: the collector registers nothing and whatever it sends goes nowhere.
+// Network stub: the node registers nothing; what it sends is kept for the harness to read.
 
 import (
 	xctx "github.com/xuperchain/xupercore/kernel/common/xcontext"
@@ -9,11 +9,18 @@ import (
 	pb "github.com/xuperchain/xupercore/protos"
 )
 
-type stubNet struct{}
+// stubNet keeps what the node sends (the production code sends from a goroutine of its own).
+type stubNet struct{ sent chan *pb.XuperMessage }
+
+func newStubNet() *stubNet { return &stubNet{sent: make(chan *pb.XuperMessage, 64)} }
 
 func (n *stubNet) Start() {}
 func (n *stubNet) Stop()  {}
-func (n *stubNet) SendMessage(xctx.XContext, *pb.XuperMessage, ...p2p.OptionFunc) error {
+func (n *stubNet) SendMessage(_ xctx.XContext, m *pb.XuperMessage, _ ...p2p.OptionFunc) error {
+	select {
+	case n.sent <- m:
+	default: // nobody reads: drop
+	}
 	return nil
 }
 func (n *stubNet) SendMessageWithResponse(xctx.XContext, *pb.XuperMessage, ...p2p.OptionFunc) ([]*pb.XuperMessage, error) {
